@@ -82,8 +82,12 @@ async fn run_clock(mut clock: HLCTimestamp, reqs: flume::Receiver<Event>) {
                 if let Err(TimestampError::Overflow) = clock.recv(&remote_ts) {
                     // No counter value is left for the instant of the remote timestamp,
                     // move past it so that everything issued from now on is still newer.
-                    if let Some(next) = next_instant(&remote_ts, remote_ts.node()) {
-                        let _ = clock.recv(&next);
+                    // (Not through `recv`, which refuses that instant when the remote
+                    // timestamp sits exactly at the drift limit.)
+                    if let Some(next) = next_instant(&remote_ts, clock.node()) {
+                        if clock < next {
+                            clock = next;
+                        }
                     }
                 }
                 #[cfg(feature = "verif")]
